@@ -392,6 +392,10 @@ def raised_outside_harness(exc):
         last = tb.tb_frame.f_code.co_filename
         tb = tb.tb_next
     here = os.path.dirname(os.path.abspath(__file__))
+    if last is not None and os.path.abspath(last) == os.path.join(here, 'plugins.py'):
+        # a fault injected through pycel's plugins= parameter that comes out of a pycel call unwrapped is a
+        # witness about pycel (it must wrap it), not a failure of the harness
+        return True
     return last is not None and not os.path.abspath(last).startswith(here)
 
 
